@@ -201,3 +201,21 @@ extern "C" void h_locations_each(void) {
    }
    vp_done();
 }
+// a Lexicon that lived and died earlier: a ghost graph of the same template with a plain literal is built, printed and destroyed; graph b is
+// then built by an allocator that hands the ghost's blocks out again (engine bound alloc_reuse; natively: malloc), so b's nodes sit at the
+// ghost's addresses, with a literal that needs escaping; graph a (built before the ghost, at fresh addresses) is the reference
+extern "C" void h_after_ghost(void) {
+   Params p; make_params(p, 7);
+   static const char8_t classes[] = { u8'4', 0x05, u8'\n', u8'\\', u8'"', 0x7f, 0x01, u8'\t' };
+   p.lit[0] = classes[vp_pick(sizeof classes)];
+   p.file = 7; p.line = 8; p.col = 9; p.print_locations = vp_flag();
+   History h { 0, false, false, true, false };
+   Graph* a = new Graph; a->build(p, h);
+   { Params q = p; q.lit[0] = u8'4'; Graph* ghost = new Graph; ghost->build(q, h); std::ostringstream* og; ghost->print(p.print_locations, og); delete ghost; }
+   Graph* b = new Graph; b->build(p, h);
+   std::ostringstream *oa, *ob;
+   int ra = a->print(p.print_locations, oa), rb = b->print(p.print_locations, ob);
+   vp_assert(ra == rb && ra != 2, 30);
+   vp_assert(vp_streams_equal(oa, ob), 31);
+   vp_done();
+}
